@@ -288,7 +288,7 @@ def run_shard(ctx):
     def test(case):
         check_case(ctx, case)
 
-    runner.drive(ctx, test, ctx.n(3200, 60000))
+    runner.drive(ctx, test, ctx.n(6400, 100000))
 
 
 def replay(ctx, case):
